@@ -403,7 +403,7 @@ Definition ert_keys := ["log-level"; "specific-context-field-type"; "payload-fie
 Definition ert_clause (strict : bool) (kv : string * yaml) : bool :=
   mem (fst kv) ert_keys &&                                            (* additionalProperties: false *)
   if String.eqb (fst kv) "log-level"
-  then match snd kv with YNull | YInt _ => true | _ => false end      (* opt-int-min-0 *)
+  then match snd kv with YNull | YInt _ | YFloat _ => true | _ => false end   (* opt-int-min-0; Draft 7: 1.0 is an integer *)
   else opt_ft_ok strict (snd kv).
 Definition ert_ok (strict : bool) (v : yaml) : bool :=
   match v with
